@@ -1,13 +1,13 @@
 SPECIFICATION Spec
 CONSTANTS
-  W <- MCW
+  W <- MCW1
   Scripts <- MCScripts
   SubmitFail <- MCSubmitFail
   Faults <- MCFaults
   StopAt <- NoStop
-  CmdBudget = 1
-  CmdKinds = {"hold", "release", "holdpt", "relall", "stoppt", "stopnow"}
-  SetOuts = {}
+  CmdBudget = 3
+  CmdKinds = {"trigger", "set"}
+  SetOuts = {"succeeded", "x", "failed", "started"}
 INVARIANT TypeOK
 INVARIANT C01_SubmitOnlyIfSatisfied
 INVARIANT C01_OnSequenceInBounds
